@@ -642,3 +642,123 @@ def replay_parameters(rec):
         if f:
             return {"reproduced": True, "input": f, "observed": f["failure"]}
     return {"reproduced": False, "note": "no failing parameter history found (3000 random histories)"}
+
+
+# ------------------------------------------------------------------ C14 distributions
+class ScriptedStream:
+    """A StreamInterface that delivers a fixed list of uniforms (then repeats 0.5)."""
+
+    def __init__(self, values):
+        self.values = list(values)
+        self.n = 0
+
+    def _next(self):
+        v = self.values[self.n] if self.n < len(self.values) else 0.5
+        self.n += 1
+        return v
+
+
+def make_scripted(values):
+    from pydsol.core.streams import StreamInterface
+
+    class S(ScriptedStream, StreamInterface):
+        def next_bool(self):
+            return self._next() < 0.5
+
+        def next_float(self):
+            return self._next()
+
+        def next_int(self, lo, hi):
+            return lo + math.floor((hi - lo + 1) * self._next())
+
+        def seed(self):
+            return 0
+
+        def original_seed(self):
+            return 0
+
+        def set_seed(self, seed):
+            pass
+
+        def reset(self):
+            self.n = 0
+
+        def save_state(self):
+            return self.n
+
+        def restore_state(self, state):
+            self.n = state
+    return S(values)
+
+
+DIST_GRID = {
+    "DistBernoulli": [(0.0,), (0.3,), (1.0,)], "DistBinomial": [(3, 0.0), (5, 0.4), (2, 1.0)],
+    "DistDiscreteUniform": [(2, 2), (-3, 4)], "DistConstant": [(2.5,)], "DistExponential": [(0.5,), (3.0,)],
+    "DistGamma": [(0.5, 2.0), (1.0, 1.0), (2.5, 0.5)], "DistErlang": [(2.0, 3), (0.5, 12)],
+    "DistGeometric": [(0.0,), (0.3,), (0.999,)], "DistNegBinomial": [(2, 0.0), (3, 0.4)],
+    "DistNormal": [(0.0, 1.0)], "DistLogNormal": [(0.0, 1.0)], "DistPearson5": [(0.5, 1.0), (2.0, 3.0)],
+    "DistPearson6": [(0.5, 0.5, 1.0), (2.0, 3.0, 1.5)], "DistBeta": [(0.5, 0.5), (2.0, 3.0)], "DistPoisson": [(0.5,), (4.0,)],
+    "DistTriangular": [(0.0, 0.0, 1.0), (0.0, 1.0, 1.0), (-1.0, 0.5, 2.0)], "DistUniform": [(1.0, 2.0)],
+    "DistWeibull": [(0.5, 1.0), (2.0, 3.0)],
+}
+SUPPORT = {
+    "DistBernoulli": lambda p, r: r in (0, 1), "DistBinomial": lambda p, r: isinstance(r, int) and 0 <= r <= p[0],
+    "DistDiscreteUniform": lambda p, r: isinstance(r, int) and p[0] <= r <= p[1], "DistConstant": lambda p, r: r == p[0],
+    "DistExponential": lambda p, r: r >= 0, "DistGamma": lambda p, r: r >= 0, "DistErlang": lambda p, r: r >= 0,
+    "DistGeometric": lambda p, r: isinstance(r, int) and r >= 0, "DistNegBinomial": lambda p, r: isinstance(r, int) and r >= 0,
+    "DistNormal": lambda p, r: isinstance(r, float), "DistLogNormal": lambda p, r: r > 0, "DistPearson5": lambda p, r: r >= 0,
+    "DistPearson6": lambda p, r: r >= 0, "DistBeta": lambda p, r: 0 <= r <= 1, "DistPoisson": lambda p, r: isinstance(r, int) and r >= 0,
+    "DistTriangular": lambda p, r: p[0] <= r <= p[2], "DistUniform": lambda p, r: p[0] <= r <= p[1], "DistWeibull": lambda p, r: r >= 0,
+}
+EXTREME = [0.0, 5e-324, 1e-300, 0.25, 0.5, 0.75, 1.0 - 2.0 ** -53]
+
+
+def dist_search(cls_name, want_exc=None):
+    import pydsol.core.distributions as D
+    cls = getattr(D, cls_name)
+    rng = random.Random(11)
+    scripts = [[u] * 6 for u in EXTREME] + [[a, b] * 4 for a in EXTREME for b in EXTREME]
+    scripts += [[rng.choice(EXTREME) for _ in range(8)] for _ in range(60)]
+    for params in DIST_GRID.get(cls_name, []):
+        for script in scripts:
+            st = make_scripted(script)
+            try:
+                d = cls(st, *params)
+            except Exception as e:
+                if want_exc is None or exc_matches(e, want_exc):
+                    return {"class": cls_name, "parameters": params, "failure": "constructor raised %s: %s for parameters inside the documented domain" % (type(e).__name__, e)}
+                break
+            try:
+                r = d.draw()
+            except Exception as e:
+                if want_exc is None or exc_matches(e, want_exc):
+                    return {"class": cls_name, "parameters": params, "uniforms": script[:st.n], "failure": "draw raised %s: %s" % (type(e).__name__, e)}
+                continue
+            if want_exc is None and not SUPPORT[cls_name](params, r):
+                return {"class": cls_name, "parameters": params, "uniforms": script[:st.n], "failure": "draw returned %r outside the support" % (r,)}
+            # re-pointing: after the stream setter the old stream is never consumed again
+            if want_exc is None:
+                used = st.n
+                st2 = make_scripted([0.3, 0.6, 0.2, 0.7, 0.4, 0.5, 0.1, 0.9])
+                d.stream = st2
+                try:
+                    d.draw()
+                except Exception:
+                    pass
+                if st.n != used:
+                    return {"class": cls_name, "parameters": params, "failure": "old stream consumed after the distribution was pointed at another stream"}
+    return None
+
+
+@replayer(r"Dist\w+\.(draw|_next_gaussian|_set_stream|__init__)")
+def replay_dist(rec):
+    cls_name = rec["function"].split(".")[0]
+    want = exc_class_of(rec) if rec.get("obligation", "").startswith("noexc") else None
+    names = [cls_name] if cls_name in DIST_GRID else list(DIST_GRID)
+    if rec["function"].endswith("_next_gaussian"):
+        names = ["DistNormal", "DistLogNormal"]
+    for n in names:
+        f = dist_search(n, want)
+        if f:
+            return {"reproduced": True, "input": f, "observed": f["failure"]}
+    return {"reproduced": False, "note": "no failing (parameters, uniforms) found on the extreme-uniform grid"}
